@@ -1,5 +1,370 @@
-//! Conformance harness for specification-growth module g03 (see /verif/DESIGN.md 12.6).
+//! Conformance harness for specification-growth module G03 (here-documents),
+//! see spec/HereDoc.tla.
+//!
+//! `yv-g03 replay --in GEN.ndjson --out MISMATCHES.ndjson [--threads T]`
+//!     spec -> impl: every line of GEN is a scenario printed by Gen_HereDoc
+//!     (script text and what the specification expects).  The script is run
+//!     by the real shell on the simulated OS as a `-c` string and as a script
+//!     on descriptor 0, and parsed by the real parser; events, standard
+//!     output, here-document nodes and printed commands are compared.
+//! `yv-g03 random --n N --out TRACE.ndjson [--threads T]`
+//!     impl -> spec: N seeded random scenarios are rendered, run and parsed;
+//!     the observations are written for Trace_HereDoc to judge.
+//! `yv-g03 one --in SCEN.json --out TRACE.ndjson`
+//!     one scenario (`{"sc": {...}}`), same record as `random`.
+mod run;
+mod scen;
+
+use rand::SeedableRng;
+use run::{MODES, Obs, Parsed};
+use scen::Scen;
+use serde_json::{Value, json};
+use std::collections::BTreeMap;
+use std::io::{BufRead, Write};
+use std::sync::Mutex;
+use std::sync::atomic::{AtomicUsize, Ordering};
+use yvcommon::util::{self, opt, opt_usize};
+
+fn strs(v: &Value) -> Vec<String> {
+    v.as_array().map(|a| a.iter().map(|x| x.as_str().unwrap_or("").to_string()).collect()).unwrap_or_default()
+}
+
+/// Do the observed events match the expected groups (order inside a group is free)?
+fn match_groups(ev: &[Vec<String>], groups: &[Vec<Vec<String>>]) -> bool {
+    let mut at = 0;
+    for g in groups {
+        if at + g.len() > ev.len() {
+            return false;
+        }
+        let mut a: Vec<&Vec<String>> = ev[at..at + g.len()].iter().collect();
+        let mut b: Vec<&Vec<String>> = g.iter().collect();
+        a.sort();
+        b.sort();
+        if a != b {
+            return false;
+        }
+        at += g.len();
+    }
+    at == ev.len()
+}
+
+fn obs_json(mode: &str, o: &Obs) -> Value {
+    json!({"mode": mode, "outcome": o.outcome, "ev": o.ev, "out": o.out, "status": o.status,
+           "errnz": !o.stderr.is_empty()})
+}
+
+fn bad_outcome(o: &str) -> bool {
+    o != "completed"
+}
+
+#[derive(Default)]
+struct Stats {
+    n: usize,
+    runs: usize,
+    parses: usize,
+    by_class: BTreeMap<String, usize>,
+    by_place: BTreeMap<String, usize>,
+    by_fam: BTreeMap<String, usize>,
+    nontrivial: usize,
+    docs_checked: usize,
+    bytes_delivered: usize,
+    mismatches: usize,
+    /// rules of the specification exercised by the scenarios of class ok
+    features: BTreeMap<String, usize>,
+}
+
+impl Stats {
+    fn merge(&mut self, o: Stats) {
+        self.n += o.n;
+        self.runs += o.runs;
+        self.parses += o.parses;
+        self.nontrivial += o.nontrivial;
+        self.docs_checked += o.docs_checked;
+        self.bytes_delivered += o.bytes_delivered;
+        self.mismatches += o.mismatches;
+        for (k, v) in o.by_class {
+            *self.by_class.entry(k).or_default() += v;
+        }
+        for (k, v) in o.by_place {
+            *self.by_place.entry(k).or_default() += v;
+        }
+        for (k, v) in o.by_fam {
+            *self.by_fam.entry(k).or_default() += v;
+        }
+        for (k, v) in o.features {
+            *self.features.entry(k).or_default() += v;
+        }
+    }
+    fn json(&self) -> Value {
+        json!({"scenarios": self.n, "shell_runs": self.runs, "parses": self.parses, "by_class": self.by_class,
+               "by_place": self.by_place, "by_family": self.by_fam, "nontrivial": self.nontrivial,
+               "docs_checked": self.docs_checked, "bytes_delivered": self.bytes_delivered,
+               "mismatches": self.mismatches, "features": self.features})
+    }
+}
+
+fn odd_trailing_backslashes(l: &str) -> bool {
+    l.chars().rev().take_while(|&c| c == '\\').count() % 2 == 1
+}
+
+/// Rules of the specification a scenario of class ok exercises (for the evidence).
+fn features(sc: &Scen, e: &Value) -> Vec<String> {
+    let mut f = vec![format!("shape/{}", sc.shape), format!("nops/{}", sc.ops.len())];
+    let docs = e["docs"].as_array().cloned().unwrap_or_default();
+    let rd_data: Vec<String> = e["groups"]
+        .as_array()
+        .into_iter()
+        .flatten()
+        .flat_map(|g| g.as_array().cloned().unwrap_or_default())
+        .filter(|ev| ev[0] == "rd")
+        .map(|ev| ev[3].as_str().unwrap_or("").to_string())
+        .collect();
+    for (i, o) in sc.ops.iter().enumerate() {
+        let Some(d) = docs.get(i) else { continue };
+        let raw = d["raw"].as_str().unwrap_or("");
+        let q = d["q"].as_bool().unwrap_or(false);
+        f.push(format!("op/{}/{}", if o.strip { "<<-" } else { "<<" }, if q { "quoted" } else { "unquoted" }));
+        f.push(format!("fd/{}", o.fd));
+        if raw.is_empty() {
+            f.push("body/empty".into());
+        }
+        if o.strip && sc.lines.iter().any(|l| l.starts_with('\t')) {
+            f.push("strip/line-with-leading-tab".into());
+        }
+        if !o.strip && raw.split('\n').any(|l| l.starts_with('\t')) {
+            f.push("nostrip/tab-kept".into());
+        }
+        if !q && sc.lines.iter().any(|l| odd_trailing_backslashes(l)) {
+            f.push("unquoted/line-continuation".into());
+        }
+        if q && raw.contains('$') {
+            f.push("quoted/dollar-literal".into());
+        }
+        if !q && !rd_data.is_empty() && !rd_data.iter().any(|x| x == raw) && raw.contains(['$', '`', '\\']) {
+            f.push("unquoted/content-differs-from-text".into());
+        }
+        if o.word.len() > 1 && o.word != d["d"].as_str().unwrap_or("") {
+            f.push("delimiter/quote-removal".into());
+        }
+    }
+    if sc.ops.len() > 1 && sc.ops.iter().enumerate().any(|(i, o)| sc.ops[..i].iter().any(|p| p.fd == o.fd)) {
+        f.push("same-fd-twice".into());
+    }
+    if e["groups"].as_array().into_iter().flatten().any(|g| g.as_array().map(|a| a.len() > 1).unwrap_or(false)) {
+        f.push("events/unordered-group".into());
+    }
+    if e["groups"].as_array().into_iter().flatten().flat_map(|g| g.as_array().cloned().unwrap_or_default())
+        .any(|ev| ev[0] == "probe" && (ev.get(1).map(|x| x == "k").unwrap_or(false) || ev.as_array().map(|a| a.len() == 1).unwrap_or(false)))
+    {
+        f.push("rest/probe-line-runs".into());
+    }
+    f.sort();
+    f.dedup();
+    f
+}
+
+/// spec -> impl: one generated scenario.  Returns mismatch records.
+fn replay_one(e: &Value, st: &mut Stats) -> Vec<Value> {
+    let sc = Scen::from_json(e);
+    let lines = strs(&e["script"]);
+    let nl = e["nl"].as_bool().unwrap();
+    let class = e["class"].as_str().unwrap();
+    let text = run::script_text(&lines, nl);
+    st.n += 1;
+    *st.by_class.entry(class.to_string()).or_default() += 1;
+    *st.by_fam.entry(e["fam"].as_str().unwrap_or("?").to_string()).or_default() += 1;
+    let mut out = Vec::new();
+    let mut report = |symptom: &str, detail: String, obs: Value| {
+        out.push(json!({
+            "key": {"dir": "spec->impl", "place": sc.place, "shape": sc.shape, "symptom": symptom,
+                    "ops": sc.ops.iter().map(|o| format!("{}{}{}{}", o.fd, if o.strip { "<<-" } else { "<<" },
+                                                         if o.sp { " " } else { "" }, o.word)).collect::<Vec<_>>().join(" "),
+                    "lines": sc.lines.join("\n")},
+            "detail": detail, "sc": sc.to_json(), "script": lines, "nl": nl, "class": class,
+            "exp": {"groups": e["groups"], "out": e["out"], "docs": e["docs"], "printed": e["printed"]},
+            "obs": obs,
+        }));
+    };
+
+    let parsed: Parsed = run::parse(&text);
+    st.parses += 1;
+    if parsed.res.starts_with("panic") {
+        report("parser-panic", format!("the parser panicked: {}", parsed.res), json!({"parse": parsed.res}));
+        st.mismatches += 1;
+        return out;
+    }
+    if class != "ok" {
+        // nothing is specified beyond: the shell terminates without panicking
+        for m in MODES {
+            let o = run::run_mode(&text, m);
+            st.runs += 1;
+            if bad_outcome(&o.outcome) {
+                report("outcome", format!("mode {}: outcome {}", m.name(), o.outcome), obs_json(m.name(), &o));
+                st.mismatches += 1;
+            }
+        }
+        return out;
+    }
+    *st.by_place.entry(sc.place.clone()).or_default() += 1;
+    for ft in features(&sc, e) {
+        *st.features.entry(ft).or_default() += 1;
+    }
+    let groups: Vec<Vec<Vec<String>>> =
+        e["groups"].as_array().unwrap().iter().map(|g| g.as_array().unwrap().iter().map(strs).collect()).collect();
+    let exp_out = e["out"].as_str().unwrap();
+    if groups.iter().flatten().any(|ev| ev[0] == "rd" && !ev[3].is_empty()) || !exp_out.is_empty() {
+        st.nontrivial += 1;
+    }
+    st.bytes_delivered += groups.iter().flatten().filter(|ev| ev[0] == "rd").map(|ev| ev[3].len()).sum::<usize>();
+    if parsed.res != "ok" {
+        let o = run::run_mode(&text, MODES[0]);
+        st.runs += 1;
+        report(
+            "syntax-error",
+            format!("the parser rejects the script: {}", parsed.res),
+            json!({"parse": parsed.res, "runs": [obs_json(MODES[0].name(), &o)]}),
+        );
+        st.mismatches += 1;
+        return out;
+    }
+    if sc.place != "subst" {
+        st.docs_checked += 1;
+        let exp_docs = &e["docs"];
+        let got_docs = run::docs_json(&parsed.docs);
+        if *exp_docs != got_docs {
+            report("docs", "here-document nodes of the syntax tree differ".into(), json!({"docs": got_docs}));
+            st.mismatches += 1;
+        }
+        let exp_pr = strs(&e["printed"]);
+        if exp_pr != parsed.printed {
+            report("printed", "printed form of the commands differs".into(), json!({"printed": parsed.printed}));
+            st.mismatches += 1;
+        }
+    }
+    for m in MODES {
+        let o = run::run_mode(&text, m);
+        st.runs += 1;
+        let sym = if bad_outcome(&o.outcome) {
+            "outcome"
+        } else if !match_groups(&o.ev, &groups) {
+            "events"
+        } else if o.out != exp_out {
+            "stdout"
+        } else {
+            continue;
+        };
+        report(sym, format!("mode {}: {} differ from the specification", m.name(), sym), obs_json(m.name(), &o));
+        st.mismatches += 1;
+        break;
+    }
+    out
+}
+
+/// impl -> spec: the record of one scenario
+fn record_of(sc: &Scen, st: &mut Stats) -> Value {
+    let lines = scen::script(sc);
+    let text = run::script_text(&lines, sc.nl);
+    let parsed = run::parse(&text);
+    st.parses += 1;
+    let mut runs = Vec::new();
+    for m in MODES {
+        let o = run::run_mode(&text, m);
+        st.runs += 1;
+        runs.push(json!({"mode": m.name(), "outcome": o.outcome, "ev": o.ev, "out": o.out}));
+    }
+    st.n += 1;
+    *st.by_place.entry(sc.place.clone()).or_default() += 1;
+    json!({"sc": sc.to_json(), "script": lines, "runs": runs, "pres": parsed.res,
+           "docs": run::docs_json(&parsed.docs), "printed": parsed.printed})
+}
+
+fn par_map<T: Send + Sync, F>(items: &[T], threads: usize, out: &Mutex<Box<dyn Write + Send>>, f: F) -> Stats
+where
+    F: Fn(&T, &mut Stats) -> Vec<Value> + Sync,
+{
+    let next = AtomicUsize::new(0);
+    let total = Mutex::new(Stats::default());
+    std::thread::scope(|s| {
+        for _ in 0..threads.max(1) {
+            s.spawn(|| {
+                util::quiet_panics();
+                let mut st = Stats::default();
+                let mut buf: Vec<u8> = Vec::new();
+                loop {
+                    let i = next.fetch_add(64, Ordering::Relaxed);
+                    if i >= items.len() {
+                        break;
+                    }
+                    for it in &items[i..(i + 64).min(items.len())] {
+                        for v in f(it, &mut st) {
+                            buf.extend_from_slice(v.to_string().as_bytes());
+                            buf.push(b'\n');
+                        }
+                    }
+                    if buf.len() > 1 << 16 {
+                        out.lock().unwrap().write_all(&buf).unwrap();
+                        buf.clear();
+                    }
+                }
+                out.lock().unwrap().write_all(&buf).unwrap();
+                total.lock().unwrap().merge(st);
+            });
+        }
+    });
+    out.lock().unwrap().flush().unwrap();
+    total.into_inner().unwrap()
+}
+
+fn open_out_send(args: &[String]) -> Mutex<Box<dyn Write + Send>> {
+    let p = opt(args, "--out").expect("--out");
+    Mutex::new(Box::new(std::io::BufWriter::with_capacity(1 << 20, std::fs::File::create(p).expect("create --out"))))
+}
+
 fn main() {
-    eprintln!("yv-g03: not implemented yet");
-    std::process::exit(2);
+    let args: Vec<String> = std::env::args().skip(1).collect();
+    let threads = opt_usize(&args, "--threads", 8);
+    util::quiet_panics();
+    match args.first().map(|s| s.as_str()) {
+        Some("replay") => {
+            let input = util::open_in(&args);
+            let items: Vec<Value> = input
+                .lines()
+                .map(|l| l.expect("read"))
+                .filter(|l| !l.trim().is_empty())
+                .map(|l| serde_json::from_str(&l).expect("scenario json"))
+                .collect();
+            let out = open_out_send(&args);
+            let st = par_map(&items, threads, &out, replay_one);
+            println!("{}", st.json());
+        }
+        Some("random") => {
+            let n = opt_usize(&args, "--n", 1000);
+            let seed = util::seed();
+            let mut rng = rand::rngs::StdRng::seed_from_u64(seed.wrapping_mul(0x9e37_79b9).wrapping_add(303));
+            let items: Vec<Scen> = (0..n).map(|_| scen::random_scen(&mut rng)).collect();
+            let out = open_out_send(&args);
+            let st = par_map(&items, threads, &out, |sc, st| vec![record_of(sc, st)]);
+            println!("{}", st.json());
+        }
+        Some("one") => {
+            let p = opt(&args, "--in").expect("--in");
+            let v: Value = serde_json::from_str(&std::fs::read_to_string(p).expect("read --in")).expect("json");
+            let sc = Scen::from_json(if v.get("sc").is_some() { &v["sc"] } else { &v });
+            let mut st = Stats::default();
+            let rec = record_of(&sc, &mut st);
+            let mut out = util::open_out(&args);
+            writeln!(out, "{rec}").unwrap();
+            if args.iter().any(|a| a == "--show") {
+                eprintln!("{}", run::script_text(&scen::script(&sc), sc.nl));
+                for m in MODES {
+                    let o = run::run_mode(&run::script_text(&scen::script(&sc), sc.nl), m);
+                    eprintln!("[{}] {} status={} ev={:?} out={:?}\nstderr: {}", m.name(), o.outcome, o.status, o.ev, o.out, o.stderr);
+                }
+            }
+        }
+        _ => {
+            eprintln!("usage: yv-g03 replay|random|one ...");
+            std::process::exit(2);
+        }
+    }
 }
